@@ -11,6 +11,9 @@ import (
 	"github.com/vimeo/dials"
 )
 
+// rtQueueCap: capacity of the callback queue (dials.go: make(chan ..., 64); the model takes it from the regenerated facts)
+const rtQueueCap = 64
+
 func init() {
 	for _, id := range []string{"C04", "C05", "C06", "C07", "C08", "C09"} {
 		id := id
@@ -53,6 +56,13 @@ func checkRuntime(c *Ctx, prop string) {
 		if prop == "C09" {
 			cfg.delay = rng.Chance(85)
 		}
+		if (prop == "C08" || prop == "C06") && i%40 == 7 {
+			// saturation: a callback that never returns, then enough installs to fill the callback queue
+			// (capacity from the regenerated facts), then more updates incl. rejected ones: the monitor must
+			// keep installing and must never wait for the queue
+			cfg = rtConfig{nsrc: 1 + rng.Intn(2), nclients: 2, steps: 1600, suppress: rng.Chance(50),
+				profile: rtProfile{"saturate", 30, 2, 20, 20, 20, 0, 0}, stuck: true, noDone: true, focus: prop, saturate: true}
+		}
 		cfg.init = make([]int, cfg.nsrc)
 		for k := range cfg.init {
 			cfg.init[k] = 4 * rng.Intn(50)
@@ -73,6 +83,18 @@ func checkRuntime(c *Ctx, prop string) {
 		}
 		if r.configErr != "" {
 			res.Count("configErr/" + r.configErr)
+		}
+		if cfg.saturate {
+			full, rejectedWhileFull := false, false
+			for _, l := range r.trace {
+				if strings.Contains(l, fmt.Sprintf(" q=%d/", rtQueueCap)) {
+					full = true
+					if strings.Contains(l, "mon=submit:verifyErr") || strings.Contains(l, "mon=submit:stackErr") {
+						rejectedWhileFull = true
+					}
+				}
+			}
+			res.Count(fmt.Sprintf("saturate/queue-full=%v,rejected-update-while-full=%v", full, rejectedWhileFull))
 		}
 		rejected := 0
 		for _, u := range r.updates {
